@@ -111,3 +111,71 @@ def err_variant(t):
         if t[1].endswith('::Some'):
             return 'Some'
     return None
+
+
+def array_elems(S, t, depth=3):
+    """Elements of an array/slice operand such as `&[a, b]` / `&mut [x, y]` (by value terms)."""
+    t0 = t
+    while t0[0] in ('cast', 'idcall', 'conv'):
+        t0 = t0[3] if t0[0] == 'cast' else t0[2]
+    if t0[0] == 'agg' and t0[1] == 'array':
+        return list(t0[2])
+    if t0[0] == 'ref' and t0[1][1][0] == 'local' and not t0[1][2] and depth > 0:
+        _, cx, l = t0[1][1]
+        vals = []
+        for dn, part in S.defs.get((cx, l), []):
+            if not part:
+                vals.append(S.def_value(dn, cx, l))
+        if len(vals) == 1:
+            v = vals[0]
+            if v[0] == 'agg' and v[1] == 'array':
+                return list(v[2])
+            return array_elems(S, v, depth - 1)
+    if t0[0] == 'ref' and 'promoted' in fmt(t0):
+        return []        # promoted constant `&[]`
+    return None
+
+
+def elem_object(sg, S, e):
+    """(kind, type string, base term) of the object whose bytes a slice element denotes."""
+    bytes_of = False
+    t = e
+    while True:
+        if t[0] == 'idcall':
+            if 'as_bytes' in t[1] or 'as_mut_bytes' in t[1]:
+                bytes_of = True
+            t = t[2]
+            continue
+        if t[0] in ('conv',):
+            t = t[2]
+            continue
+        if t[0] == 'cast':
+            t = t[3]
+            continue
+        break
+    ty = None
+    if t[0] == 'ref':
+        loc = t[1]
+        root = loc[1]
+        if root[0] == 'local' and not loc[2]:
+            ty = sg.ctxs[root[1]].fn['locals'][root[2]]['ty']
+        elif loc[2] and loc[2][-1][0] == 'f':
+            ty = 'field:%s' % loc[2][-1][1]
+        elif root[0] == 'deref':
+            ty = root[2].lstrip('&').replace('mut ', '')
+    elif t[0] == 'param':
+        fn = sg.ctxs[0].fn
+        ty = fn['locals'][t[1]]['ty']
+    return bytes_of, ty, t
+
+
+def local_value_of_ref(S, t):
+    """Value stored in the local a `&local` term points at (single whole assignment)."""
+    if t[0] == 'ref' and t[1][1][0] == 'local':
+        _, cx, l = t[1][1]
+        vals = [S.def_value(dn, cx, l) for dn, part in S.defs.get((cx, l), []) if not part]
+        if len(vals) == 1:
+            return vals[0]
+        if not vals and 1 <= l <= S.sg.ctxs[cx].fn['arg_count']:
+            return S.param_value(cx, l)
+    return None
